@@ -34,6 +34,10 @@ pub enum Op2 {
     /// execute the definition line of a function whose `end` is missing: the definition fails and must leave nothing
     /// in the registry
     DefineEndless,
+    /// one run in which the same line is executed twice and the name it invokes is re-pointed in between
+    /// (alias tmpa -> set one; line; unalias; alias tmpa -> set two; same line again): the second pass must resolve
+    /// the name afresh
+    RebindBetweenPasses(bool),
 }
 
 #[derive(Serialize, Deserialize, Clone, Debug, PartialEq)]
@@ -131,7 +135,7 @@ fn compare_tables(real: &Commands, m: &Model, ident: impl Fn(&dyn Command) -> St
     None
 }
 
-const NAMES1: [&str; 6] = ["n0", "n1", "n2", "n3", "n4", "pkg::a"];
+const NAMES1: [&str; 8] = ["n0", "n1", "n2", "n3", "n4", "pkg::a", "", " "];
 const ALIASES1: [&str; 11] = ["n0", "n1", "n2", "n3", "n4", "x", "y", "z", "pkg::a", "ext::tool", "n1::x"];
 
 fn run_l1(ops: &[Op1]) -> Verdict {
@@ -221,7 +225,8 @@ fn run_l1(ops: &[Op1]) -> Verdict {
 
 // ------------------------------------------------------------------ level 2
 
-const L2_NAMES: [&str; 7] = ["g0", "g1", "g2", "echo", "std::Echo", "noop", "f0"];
+// (blank names: what an undefined variable expands to)
+const L2_NAMES: [&str; 9] = ["g0", "g1", "g2", "echo", "std::Echo", "noop", "f0", "", " "];
 // alias targets are full command names that are never alias names themselves: a cyclic alias chain recurses
 // without bound when invoked (a C07 matter, recorded there), which would only kill workers here
 const L2_TARGETS: [&str; 3] = ["std::var::Set", "std::Noop", "std::string::Equals"];
@@ -335,6 +340,35 @@ fn run_l2(ops: &[Op2], exits: Option<&[bool]>) -> Verdict {
                         c.violate("output-mismatch", format!("{}: command lookup says {}, model {}", label, found, m.exists(x)));
                     }
                 });
+            }
+            Op2::RebindBetweenPasses(removed_second) => {
+                // second variant: the name is gone at the second pass - the run must fail at that line
+                let text = format!(
+                    "alias tmpa set one\nc = set 0\n:again\nr = tmpa\nout = set \"${{out}}${{r}},\"\nunalias tmpa\n{}c = calc ${{c}} + 1\nif equals ${{c}} 1\n    goto :again\nend\nunalias tmpa\n",
+                    if *removed_second { "" } else { "alias tmpa set two\n" }
+                );
+                world.ctx.variables.remove("out");
+                let snapshot = (world.ctx.commands.clone(), world.ctx.variables.clone(), world.ctx.state.clone());
+                let got = world.run_text(&text);
+                sim::with_core(|c| {
+                    let seq = c.next_seq();
+                    c.log.push(sim::Event::Op { seq, op: "rebind-between-passes".to_string(), args: vec![removed_second.to_string()], got: got.show(), want: if *removed_second { "run fails: command not found".to_string() } else { "one,two,".to_string() } });
+                    c.probe("line-executed-twice-name-re-pointed-in-between");
+                    match (&got, *removed_second) {
+                        (Out::Val(v), false) if v == "one,two," => {}
+                        (Out::Crash(_), true) => {}
+                        _ => c.violate("output-mismatch", format!("{}: the second pass over the line gave {}", label, got.show())),
+                    }
+                });
+                if matches!(got, Out::Crash(_)) {
+                    // the failed run took the context with it: continue on the state before it
+                    world.ctx.commands = snapshot.0;
+                    world.ctx.variables = snapshot.1;
+                    world.ctx.state = snapshot.2;
+                }
+                world.ctx.variables.remove("out");
+                world.ctx.variables.remove("r");
+                world.ctx.variables.remove("c");
             }
             Op2::DefineEndless => {
                 if exits.is_none() {
@@ -471,6 +505,7 @@ fn gen_l2(rng: &mut Rng) -> Vec<Op2> {
             8 => Op2::IsDefined(rng.pick(&L2_NAMES).to_string()),
             9 => Op2::Invoke(rng.pick(&["g0", "g1", "g2", "f0", "f1"]).to_string()),
             10 if rng.chance(1, 3) => Op2::DefineEndless,
+            11 if rng.chance(1, 3) => Op2::RebindBetweenPasses(rng.chance(1, 3)),
             _ => Op2::DefineFn(rng.usize(N_FNS)),
         })
         .collect()
